@@ -164,7 +164,12 @@ JudgeLine(e, st) ==
               class |-> o.class, unspec |-> TRUE]
         ELSE [viol |-> classViol \cup agreeViol \cup (IF checked THEN fieldViol ELSE {}),
               devs |-> IF checked THEN fieldDevs ELSE {},
-              st |-> o.st, lost |-> ~kindOk, class |-> o.class, unspec |-> FALSE]
+              st |-> o.st,
+              \* a payload-level disagreement on an unfragmented sentence or a delivery says nothing
+              \* about the reassembly state (it is the same either way): keep tracking
+              lost |-> ~kindOk /\ ~(o.class \in {"single", "deliver"} /\ needDecode
+                                     /\ e.r \in {"err_nmea", "complete"}),
+              class |-> o.class, unspec |-> FALSE]
 
 --------------------------------------------------------------------------
 (* Twin comparison (C17 / C18): an event may carry the observation made    *)
@@ -227,13 +232,53 @@ JudgeRot(e) ==
                    ELSE IF (e.rate = << >>) = (sv \in {-127, 127}) THEN {} ELSE V("X", "RateOfTurn::rate"))
 
 --------------------------------------------------------------------------
+(* C20: one event per input line of a run of the real command-line tool:   *)
+(*   [op |-> "cli", b |-> line bytes, out |-> records on stdout attributed *)
+(*    to this line, err |-> records on stderr, variant |-> variant name in *)
+(*    the stdout record or ""]                                             *)
+(* and a final  [op |-> "cliend", exit, ordered, unattributed].            *)
+(* Returns [viol, st, lost, class, unspec].                                *)
+JudgeCli(e, st) ==
+    LET ln == ParseLine(e.b, 0)
+        o  == Outcome(st, ln, 0, {})
+        unspec == ln.ok /\ (ln.starInField \/ ~ValidNumbering(ln))
+        r0 == ResultOf(o.class)
+        px == IF r0 = "complete" THEN PayloadExpect(o.data, ln.fill)
+              ELSE [must |-> "ok", dm |-> ErrorDecode, why |-> ""]
+        okOut == e.out = 1 /\ e.err = 0 /\ e.variant = px.dm.v
+        okErr == e.out = 0 /\ e.err = 1
+        okNone == e.out = 0 /\ e.err = 0
+        good == IF r0 = "incomplete" THEN okNone
+                ELSE IF r0 = "complete"
+                     THEN (IF px.must = "ok" THEN okOut ELSE IF px.must = "err" THEN okErr ELSE okOut \/ okErr)
+                ELSE okErr
+        describe == "expected " \o (IF r0 = "incomplete" THEN "no record"
+                                     ELSE IF r0 = "complete" /\ px.must = "ok" THEN "one stdout record (" \o px.dm.v \o ")"
+                                     ELSE IF r0 = "complete" /\ px.must = "either" THEN "one record"
+                                     ELSE "one stderr record")
+                    \o ", observed " \o ToString(e.out) \o " on stdout (" \o e.variant \o "), "
+                    \o ToString(e.err) \o " on stderr"
+    IN  IF unspec
+        THEN [viol |-> IF e.out + e.err > 1 THEN V("C20", "more than one record for a line") ELSE {},
+              st |-> o.st,
+              lost |-> ~((r0 = "incomplete" /\ okNone) \/ (r0 = "complete" /\ (okErr \/ e.out = 1)) \/ (r0 \notin {"complete", "incomplete"} /\ okErr)),
+              class |-> o.class, unspec |-> TRUE]
+        ELSE [viol |-> IF good THEN {} ELSE V("C20", describe),
+              st |-> o.st, lost |-> ~good, class |-> o.class, unspec |-> FALSE]
+
+JudgeCliEnd(e) ==
+    (IF e.exit = 0 THEN {} ELSE V("C20", "exit status " \o ToString(e.exit) \o " after " \o ToString(e.consumed) \o " of " \o ToString(e.total) \o " lines"))
+    \cup (IF e.ordered = 1 THEN {} ELSE V("C20", "records are not in input order"))
+    \cup (IF e.unattributed = 0 THEN {} ELSE V("C20", "records that belong to no input line"))
+
+--------------------------------------------------------------------------
 Init == /\ l = 1
         /\ ps = [p \in {} |-> Fresh]
         /\ lost = {}
         /\ viol = << >>
         /\ nviol = [p \in Props |-> 0]
         /\ devs = [d \in DevIds |-> 0]
-        /\ cnt = [events |-> 0, lines |-> 0, unspec |-> 0, lostskip |-> 0, decoded |-> 0,
+        /\ cnt = [events |-> 0, lines |-> 0, unspec |-> 0, lostskip |-> 0, decoded |-> 0, generr |-> 0,
                   class |-> [c \in Classes |-> 0], type |-> [t \in 0..63 |-> 0]]
 
 \* add a set of <<prop, what>> found at event index i
@@ -248,9 +293,15 @@ DecodedType(e) ==
     IF Has(e, "s") /\ e.s.msg # << >> THEN e.s.msg[1].f.message_type
     ELSE IF Has(e, "msg") /\ e.msg # << >> THEN e.msg[1].f.message_type ELSE -1
 
+\* a generator labels lines it built as removable ("R:"); the specification must agree (else the
+\* scenario, not the code, is at fault: reported as a tool error by the orchestrator)
+GenErr(e, class, unspec) ==
+    IF Has(e, "tag") /\ e.tag = "R:" /\ class # "" /\ ~unspec /\ class \notin (RejectClasses \cup {"single"})
+    THEN 1 ELSE 0
 Bump(e, class, unspec, skipped) ==
     cnt' = [cnt EXCEPT !.events = @ + 1,
-                       !.lines = @ + (IF e.op = "line" THEN 1 ELSE 0),
+                       !.generr = @ + GenErr(e, class, unspec),
+                       !.lines = @ + (IF e.op \in {"line", "cli"} THEN 1 ELSE 0),
                        !.unspec = @ + (IF unspec THEN 1 ELSE 0),
                        !.lostskip = @ + (IF skipped THEN 1 ELSE 0),
                        !.decoded = @ + (IF DecodedType(e) >= 0 THEN 1 ELSE 0),
@@ -286,14 +337,28 @@ EvPure(e) ==
     /\ AddDevs(IF e.op = "decode" THEN DecodeDevs(e) ELSE {})
     /\ Bump(e, "", FALSE, FALSE)
 
+EvCli(e) ==
+    /\ e.op = "cli"
+    /\ IF 0 \in lost
+       THEN /\ UNCHANGED <<ps, lost>> /\ AddViol(l, {}) /\ AddDevs({}) /\ Bump(e, "", FALSE, TRUE)
+       ELSE LET j == JudgeCli(e, StateOf(0))
+            IN  /\ ps' = [q \in (DOMAIN ps) \cup {0} |-> IF q = 0 THEN j.st ELSE ps[q]]
+                /\ lost' = IF j.lost THEN lost \cup {0} ELSE lost
+                /\ AddViol(l, j.viol) /\ AddDevs({}) /\ Bump(e, j.class, j.unspec, FALSE)
+
+EvCliEnd(e) ==
+    /\ e.op = "cliend"
+    /\ UNCHANGED <<ps, lost>>
+    /\ AddViol(l, JudgeCliEnd(e)) /\ AddDevs({}) /\ Bump(e, "", FALSE, FALSE)
+
 EvMeta(e) ==
-    /\ e.op \notin {"new", "line", "unarmor", "decode", "ship", "rot"}
+    /\ e.op \notin {"new", "line", "unarmor", "decode", "ship", "rot", "cli", "cliend"}
     /\ UNCHANGED <<ps, lost>>
     /\ AddViol(l, {}) /\ AddDevs({}) /\ Bump(e, "", FALSE, FALSE)
 
 Report ==
     PrintT(<<"RESULT", ToJson([events |-> cnt'.events, lines |-> cnt'.lines, unspec |-> cnt'.unspec,
-                               lostskip |-> cnt'.lostskip, decoded |-> cnt'.decoded,
+                               lostskip |-> cnt'.lostskip, decoded |-> cnt'.decoded, generr |-> cnt'.generr,
                                class |-> cnt'.class,
                                types |-> {<<t, cnt'.type[t]>> : t \in {x \in 0..63 : cnt'.type[x] > 0}},
                                nviol |-> [p \in {x \in Props : nviol'[x] > 0} |-> nviol'[p]],
@@ -302,7 +367,7 @@ Report ==
 
 Next ==
     /\ l <= Len(Rec)
-    /\ LET e == Rec[l] IN EvNew(e) \/ EvLine(e) \/ EvPure(e) \/ EvMeta(e)
+    /\ LET e == Rec[l] IN EvNew(e) \/ EvLine(e) \/ EvPure(e) \/ EvCli(e) \/ EvCliEnd(e) \/ EvMeta(e)
     /\ l' = l + 1
     /\ (l' > Len(Rec)) => Report
 
